@@ -60,7 +60,11 @@ contract("AsyncHpcSubmitter.__init__", file=F, qualname="AsyncHpcSubmitter.__ini
                    "self.blocking", "self.g_launched", "self.g_canceled", "self.cancel_on_blocking_job_failure", "self.g_is_batch"],
          ghost_ensures=["empty(self.blocking)", "self.g_launched == 0", "not self.g_canceled", "not self.cancel_on_blocking_job_failure", "self.g_is_batch"])
 
-contract("HpcSubmitter._make_async_submitter", file=F, fresh_result=True,
+ghost("last_batch_cfg", "Dict[Name,Opaque]")      # the mapping written as the newest config_batch_<i>.json
+contract("dump_batch_config", kind="assumed", params=[("data", "Dict[Name,Opaque]"), ("filename", "Opaque"), ("cls", "Opaque", "None")],
+         ensures=["ghost.last_batch_cfg == data"], modifies=["ghost.last_batch_cfg"],
+         note="jade.utils.utils.dump_data at the batch-configuration call site: writes the mapping as JSON (T-fs); ghost: what was written")
+contract("HpcSubmitter._make_async_submitter", file=F, fresh_result=True, call_alias={"dump_data": "dump_batch_config"},
          params=[("self", "Ref[HpcSubmitter]"), ("jobs", "Opaque"), ("submission_group", "Ref[SubmissionGroup]"), ("dry_run", "bool", "False")],
          returns="Ref[AsyncHpcSubmitter]",
          locals={"config": "Dict[Name,Opaque]"},
@@ -72,6 +76,10 @@ contract("HpcSubmitter._make_async_submitter", file=F, fresh_result=True,
              "isnone(result._job_id) and not result.g_done and empty(result.blocking) and result.g_launched == 0 and result.g_is_batch",
              "result._mgr == self._hpc_mgr and result._status_collector == self._status_collector",
              "unchanged(AsyncJob.job_id, result) and unchanged(AsyncJob.g_is_batch, result) and unchanged(AsyncJob.name, result)",
+             # C16/C17: the configuration written for the node is the submission's configuration with only the job list replaced, so node
+             # setup / teardown commands and the submission groups reach the node
+             "forall(k, self._base_config, k in ghost.last_batch_cfg and implies(k != typed('jobs', 'Name'), ghost.last_batch_cfg[k] == self._base_config[k]))",
+             "typed('jobs', 'Name') in ghost.last_batch_cfg and ghost.last_batch_cfg[typed('jobs', 'Name')] == jobs",
          ],
          trusted_ensures=[
              # A-names (assumption, unchecked): the name <prefix>_batch_<index> of a new batch is not the name of any outstanding queue entry
@@ -79,7 +87,7 @@ contract("HpcSubmitter._make_async_submitter", file=F, fresh_result=True,
              "forall(q, JobQueue, result.name not in q._outstanding_jobs)",
          ],
          modifies=["self._batch_index", "AsyncJob.g_is_batch", "AsyncJob.name", "AsyncJob.return_code", "AsyncJob.g_done", "AsyncJob.blocking", "AsyncJob.g_launched",
-                   "AsyncJob.g_canceled", "AsyncJob.cancel_on_blocking_job_failure",
+                   "AsyncJob.g_canceled", "AsyncJob.cancel_on_blocking_job_failure", "ghost.last_batch_cfg",
                    "AsyncHpcSubmitter._mgr", "AsyncHpcSubmitter._status_collector", "AsyncHpcSubmitter._run_script",
                    "AsyncHpcSubmitter._submission_group", "AsyncJob.job_id", "AsyncHpcSubmitter._output", "AsyncHpcSubmitter._dry_run"])
 
@@ -99,7 +107,7 @@ contract("HpcSubmitter._submit_batch", file=F,
              "ghost.runs == old(ghost.runs) + 1",
              "nout(queue) <= old(nout(queue)) + 1 and nout(queue) >= old(nout(queue))",
          ],
-         modifies=["self._batch_index", "JobQueue._num_jobs", "JobQueue._outstanding_jobs", "JobQueue._queued_jobs", "ghost.runs",
+         modifies=["self._batch_index", "JobQueue._num_jobs", "JobQueue._outstanding_jobs", "JobQueue._queued_jobs", "ghost.runs", "ghost.last_batch_cfg",
                    "AsyncJob.g_is_batch", "AsyncJob.name", "AsyncJob.return_code", "AsyncJob.g_done", "AsyncJob.blocking", "AsyncJob.g_launched",
                    "AsyncJob.g_canceled", "AsyncJob.cancel_on_blocking_job_failure",
                    "AsyncHpcSubmitter._mgr", "AsyncHpcSubmitter._status_collector", "AsyncHpcSubmitter._run_script",
@@ -198,7 +206,7 @@ contract("HpcSubmitter._submit_batches", file=F,
              "forall(k, range(B0(), len(blocked_jobs)), forall(m, range(S0(), len(submitted_jobs)), blocked_jobs[k].name != submitted_jobs[m].name))",
          ],
          modifies=["submitted_jobs", "blocked_jobs", "self._batch_index", "JobQueue._num_jobs", "JobQueue._outstanding_jobs",
-                   "JobQueue._queued_jobs", "ghost.runs"] + HEAP_ASYNC + HEAP_BATCH)
+                   "JobQueue._queued_jobs", "ghost.runs", "ghost.last_batch_cfg"] + HEAP_ASYNC + HEAP_BATCH)
 
 # ---- AsyncHpcSubmitter: implementation of the AsyncJob interface ---------------------------------
 contract("HpcManager.submit", kind="assumed",
@@ -503,7 +511,7 @@ contract("HpcSubmitter.run", file=F,
              # C11 (kill points): a batch handed to the scheduler and not yet persisted implies the marker file exists
              "ghost.runs == old(ghost.runs) or MARKER(self) in ghost.fs or persisted()",
          ],
-         modifies=["self._batch_index", "ghost.runs", "ghost.fs", "ghost.cluster_lock", "ghost.lock_marker_left", "ghost.collected", "ghost.collected_failed",
+         modifies=["self._batch_index", "ghost.runs", "ghost.last_batch_cfg", "ghost.fs", "ghost.cluster_lock", "ghost.lock_marker_left", "ghost.collected", "ghost.collected_failed",
                    "ghost.files", "ghost.vfiles", "ghost.file_writes", "ghost.last_status", "ghost.sbatch_n",
                    "Job.state", "Job.blocked_by", "JobStatus.hpc_job_ids", "JobStatus.batch_index", "JobStatus.version",
                    "ClusterConfig.submitted_jobs", "ClusterConfig.completed_jobs", "ClusterConfig.version",
